@@ -787,6 +787,11 @@ func c20Oracle(c *oracleCtx) {
 		// an invalid literal that itself spans lines (a missing comma): the cited line is that of the terminating delimiter
 		{"literal-spans-lines-list", "[%n", "tru\ne1,", 6, `2]`},
 		{"missing-comma-obj", "{\n \"a\": 1%n\n \"b\": 2\n", "}", 0, ``},
+		// long invalid literals (a missing quote, a runaway number): still reported at their delimiter, however long
+		{"long-literal-list", `[%n1,`, strings.Repeat("x", 300) + `%n,`, -1, `2]`},
+		{"long-literal-end-list", `[%n`, strings.Repeat("9", 5000) + `e%n]`, -1, ``},
+		{"long-literal-obj", `{"a":%n`, strings.Repeat("ab", 200) + `%n}`, -1, ``},
+		{"long-literal-nested", `{"a":[%n{"k":`, strings.Repeat("tru", 100) + "\n" + strings.Repeat("e", 100) + `%n,`, -1, `"z":1}]}`},
 		// nested empty containers spread over lines, closed where a key / value could start, before a later error
 		{"empty-obj-lines-list", "[{\n%n},{\n},\n", `tru,`, 3, `1]`},
 		{"empty-obj-lines-obj", "{\"a\":{\n%n\n},\"b\":{%n},\n", `x`, 0, `"c":1}`},
